@@ -57,7 +57,7 @@ type oneEvent struct {
 
 type pairEvent struct {
 	Ev  string `json:"ev"`
-	Var string `json:"var"` // case | ws | ws0
+	Var string `json:"var"` // case | ws | ws1
 	A   run    `json:"a"`
 	B   run    `json:"b"`
 }
@@ -279,21 +279,14 @@ func pairs(sents []sentence) {
 		b.WriteString(spaces[rng.Intn(len(spaces))])
 		emit(pairEvent{Ev: "Pair", Var: "ws", A: a, B: lexRun(b.String())})
 		stats["pair:ws"]++
-		// (3) white space also between tokens that the base text writes without any
-		glued := false
-		for i := range s.S {
-			glued = glued || gram.Glued(s.S, i)
-		}
-		if glued {
-			emit(pairEvent{Ev: "Pair", Var: "ws0", A: a, B: lexRun(strings.Join(texts, " "))})
-			stats["pair:ws0"]++
-		}
-		// (4) the base written as compactly as the punctuation allows vs the spaced text
+		// (3) the base written as compactly as the punctuation allows vs the spaced text
 		var cb strings.Builder
 		for i, t := range texts {
 			if t == "" {
 				continue
 			}
+			// (a filter function and its "(" stay glued in both texts: the repository's own tests require
+			// "FILTER latest (?p)" to be rejected, so that white space is part of the notation)
 			if i > 0 && cb.Len() > 0 && !punct(texts[i-1]) && !punct(t) {
 				cb.WriteByte(' ')
 			}
